@@ -348,6 +348,27 @@ func (pl *plit) valueShape(e ast.Expr, depth int) *schemaShape {
 				return pl.valueShape(x.Args[0], depth+1)
 			}
 		}
+		// a value-building function of the package (`successfulLoopOutput(itemOutputs)`): the shape of what its single
+		// return statement returns
+		if id, ok := x.Fun.(*ast.Ident); ok {
+			if o := ti.Uses[id]; o != nil {
+				if fd, ok := pl.decl[o].(*ast.FuncDecl); ok && fd.Body != nil && fd.Recv == nil {
+					var rets []*ast.ReturnStmt
+					ast.Inspect(fd.Body, func(n ast.Node) bool {
+						if _, isLit := n.(*ast.FuncLit); isLit {
+							return false
+						}
+						if r, ok := n.(*ast.ReturnStmt); ok {
+							rets = append(rets, r)
+						}
+						return true
+					})
+					if len(rets) == 1 && len(rets[0].Results) == 1 {
+						return pl.valueShape(rets[0].Results[0], depth+1)
+					}
+				}
+			}
+		}
 	case *ast.CompositeLit:
 		t := ti.TypeOf(x)
 		if t == nil {
